@@ -30,6 +30,7 @@ import Golib.Proof.C01Progress
 import Golib.Proof.C01U32Run
 import Golib.Proof.C01U32Lin
 import Golib.Proof.C01ABA
+import Golib.Proof.C01ABA4
 import Golib.Proof.C01Wait
 import Golib.Proof.C01Heap
 
@@ -803,27 +804,46 @@ on `Conc32` produces exactly the ghost state (abstract queue, records, clock, lo
 ghost machine on the same schedule, and the 32-bit state is the ghost state mod `2^32`;
 so the log of the 32-bit run is sorted, replays as a legal sequential bounded-FIFO history
 to the current abstract queue and every entry lies in its operation's interval — clauses
-1–3 and 5 of `c01_linearizable_classical` verbatim; clause 4 (returns) transfers because the
-32-bit machine returns the same values (`c01_u32_transfer`). -/
+1–3 and 5 of `c01_linearizable_classical` verbatim; and clause 4 directly: whatever the
+32-BIT machine returns in the next step of thread `i` (BoundedLag also for that step) agrees
+with the log entry of the returning operation (`RetEntry`: exactly its entry with the
+returned value for a true return, no entry for a false one). -/
 theorem c01_u32_linearizable_classical (k : Nat) (hk1 : 1 ≤ k) (hk : k ≤ 31) (r : Nat)
-    (progs : List (List Call)) (σ : List Nat) :
+    (progs : List (List Call)) (σ : List Nat) (i : Nat) :
     let c0 : Cfg := { M := 0, cap := 2 ^ k }
     let c32 : Cfg := { M := 2 ^ 32, cap := 2 ^ k }
     let x := trun c0 (initAt c0 r progs) (ginit progs) (tinit progs) σ
     let x32 := trun c32 (initAt c32 r progs) (ginit progs) (tinit progs) σ
-    LagRun c0 (initAt c0 r progs) σ →
+    LagRun c0 (initAt c0 r progs) (σ ++ [i]) →
     x32 = (wrapState x.1, x.2) ∧
     x32.2.2.log.Pairwise (fun a b => a.t < b.t) ∧
     bqRun c32.cap [] (x32.2.2.log.map (·.ev)) = some x32.2.1.q ∧
-    (∀ e ∈ x32.2.2.log, e.inv ≤ e.t ∧ e.t < x32.2.2.clock) := by
+    (∀ e ∈ x32.2.2.log, e.inv ≤ e.t ∧ e.t < x32.2.2.clock) ∧
+    (∀ ret, (step c32 x32.1 i).2.ret = some ret → RetEntry x32.2.1 x32.2.2 i ret) := by
   intro c0 c32 x x32 hl
   have g := ghost_pow k hk1
-  have h := trun32 hk1 hk (inv_initAt g r progs) (ginit progs) (tinit progs) σ hl
+  rw [lagRun_append] at hl
+  obtain ⟨hl1, hl2, _⟩ := hl
+  have h := trun32 hk1 hk (inv_initAt g r progs) (ginit progs) (tinit progs) σ hl1
   rw [wrap_initAt] at h
   have hx : x32 = (wrapState x.1, x.2) := h
-  obtain ⟨_, hT⟩ := tinv_trun g (ginv_initAt g r progs) (tinv_initAt (c := c0) r progs) σ
+  obtain ⟨hG, hT⟩ := tinv_trun g (ginv_initAt g r progs) (tinv_initAt (c := c0) r progs) σ
+  have hrun : x.1 = (run c0 (initAt c0 r progs) σ).1 := by
+    have h1 := congrArg Prod.fst (trun_fst c0 (initAt c0 r progs) (ginit progs) (tinit progs) σ)
+    rw [lrun_fst] at h1
+    exact h1
+  have hlag : ∀ th, x.1.threads[i]? = some th → Lag (2 ^ k) x.1 th.pc := by
+    rw [hrun]; exact hl2
+  have hstep := step32 hk1 hk hG.inv i hlag
   rw [hx]
-  exact ⟨rfl, hT.sorted, hT.legal, hT.times⟩
+  refine ⟨rfl, hT.sorted, hT.legal, hT.times, ?_⟩
+  intro ret hr
+  refine ret_entry g hG hT i ret ?_
+  have e : (step c32 (wrapState x.1) i).2.ret = (step c0 x.1 i).2.ret := by
+    show (step { M := 4294967296, cap := 2 ^ k } _ i).2.ret = _
+    rw [hstep]
+    rfl
+  rw [← e]; exact hr
 
 /-- `c01_aba_reachable` (F12 as a theorem for EVERY ticket width, capacity 2).  For every
 width `w ≥ 2` the machine with `w`-bit tickets (`M = 2^w`) and capacity 2 has a run of
@@ -850,6 +870,28 @@ theorem c01_aba_reachable (w : Nat) (hw : 2 ≤ w) :
     ((run c (init c (ABA.abaProgs K)) (σ ++ [0, 0, 0])).1.slots[0]?).map (·.val) = some 7 ∧
     ABA.net (ABA.rets (run c (init c (ABA.abaProgs K)) (σ ++ [0, 0, 0])).2) = 3 :=
   ABA.aba_all_widths w hw
+
+/-- `c01_aba_reachable_cap4`: the same theorem at capacity 4 for every width `w ≥ 3`
+(second instance; `Proof/C01ABA4.lean`): after `2^w − 4` pop/push pairs the parked `Push`
+succeeds on the full four-slot ring and overwrites the oldest unpopped element; successful
+pushes minus successful pops = 5 > 4.
+What is missing for EVERY capacity `2^k < 2^w`: the round lemma is proved by writing the
+slot list out per residue of the rotation (2 resp. 4 cases, closed by `simp`); for `2^k`
+slots it needs the closed form `(List.range cap).map fun i => ⟨(slotSeq cap n i + 1) % M, 9⟩`,
+the facts `slotSeq cap (n+1) (n % cap) = n + cap` and `slotSeq cap (n+1) i = slotSeq cap n i`
+otherwise, and the `List.set`/`getElem?` calculation through the eleven steps of a round —
+the induction over rounds, the prefix and the final steps are then as here. -/
+theorem c01_aba_reachable_cap4 (w : Nat) (hw : 3 ≤ w) :
+    let c : Cfg := { M := 2 ^ w, cap := 4 }
+    let K := 2 ^ w - 4
+    let σ := ABA4.prefix4 ++ ABA.roundSched K
+    ((run c (init c (ABA4.progs4 K)) σ).1 = ABA4.R (2 ^ w) K 0 ∧
+      (ABA4.R (2 ^ w) K 0).tail = 0 ∧ (ABA4.R (2 ^ w) K 0).head = 2 ^ w - 4 ∧
+      (ABA4.R (2 ^ w) K 0).slots[0]? = some ⟨2 ^ w - 4 + 1, 9⟩) ∧
+    (run c (ABA4.R (2 ^ w) K 0) [0]).2 = [⟨0, .casTail 0 1 true, none⟩] ∧
+    ((run c (init c (ABA4.progs4 K)) (σ ++ [0, 0, 0])).1.slots[0]?).map (·.val) = some 7 ∧
+    ABA.net (ABA.rets (run c (init c (ABA4.progs4 K)) (σ ++ [0, 0, 0])).2) = 5 :=
+  ABA4.aba_all_widths w hw
 
 /-- Non-vacuity of the refinement theorems: a two-thread schedule at rotation `2^32 − 1`
 (the counters wrap in the middle of the run) satisfies `LagRun`, and the 32-bit machine
